@@ -66,4 +66,33 @@ theorem post_step (v : PyVal) (l : List Item) :
     unfold post
     rw [if_neg h]; rfl
 
+/-- What `post` can hand out for an item: the item itself when it is not of the reserved form, or the date-time of the
+payload of the reserved pair `[marker, x]` — nothing else (Sixth pass). -/
+theorem post_shapes (v : PyVal) (it : Item) (h : post v = some it) :
+    (isReserved v = false ∧ it = .val v) ∨
+    (∃ x, v = .list [.str Gen.Row.reservedMarker, x] ∧ it = .datetime x) := by
+  unfold post at h
+  by_cases hr : isReserved v = true
+  · rw [if_pos hr] at h
+    right
+    cases v with
+    | list xs =>
+      match xs, hr, h with
+      | [a, b], hr, h =>
+        simp only [isReserved, Gen.Row.reservedLen, Gen.Row.reservedIdx] at hr
+        cases a <;> simp at hr
+        rename_i s
+        simp only [Gen.Row.reservedArg, fromtimestamp, List.getElem?_cons_succ, List.getElem?_cons_zero] at h
+        split at h
+        · injection h with h; exact ⟨b, by simp [hr], h.symm⟩
+        · cases h
+      | [], hr, h => simp [isReserved, Gen.Row.reservedLen] at hr
+      | [_], hr, h => simp [isReserved, Gen.Row.reservedLen] at hr
+      | _ :: _ :: _ :: _, hr, h => simp [isReserved, Gen.Row.reservedLen] at hr
+    | _ => simp [isReserved] at hr
+  · rw [if_neg hr] at h
+    left
+    simp at hr h
+    exact ⟨hr, h.symm⟩
+
 end RowCodec
